@@ -171,7 +171,6 @@ def f_duplicate(it, g, pos, spell):
             return None
         ded = o.endswith("dedicated")
         nm = o.split("_")[1] if not o.startswith("v_type_hint") else "type_hint"
-        m.attrs = [a for a in m.attrs if a.kind != nm]
 
         def mk():
             c = cp if ded else None
@@ -250,39 +249,48 @@ def f_misplaced(it, g, pos, spell):
     return Fault("misplaced", o + ("/own" if own else "/bare"), [msg])
 
 
+FROM_NAMES = ["from_owned", "from_ref", "try_from_owned", "try_from_ref", "from", "try_from", "map_ref", "try_map_owned"]
+INTO_NAMES = ["owned_into", "ref_into", "owned_try_into", "ref_try_into", "into", "try_into", "map_owned", "try_map_ref"]
+
+
+def _new_counterpart(it, g, pos, names, spell):
+    """a fresh counterpart that is requested by exactly one trait instruction: the rule under test then depends on how that
+    one (kind, fallibility) is treated"""
+    zn = _fresh(g)
+    nm = g.pick(names)
+    fal = nm.startswith("try") or "_try_" in nm
+    _ins(it.attrs, pos, Instr(nm, "trait", ty=zn, hint=None, err="En" if fal else None, params=[], spelling="bare"))
+    return zn, nm
+
+
 def f_ghost_no_default(it, g, pos, spell):
     if it.kind != "struct" or it.shape == "unit":
         return None
-    froms = [t for t in _trait_instrs(it) if any(k.startswith("from") for k in kinds_of(t.name)) and not any(p[0] == "update" for p in t.f.get("params") or [])]
-    if not froms:
-        t = Instr(g.pick(["from_owned", "from_ref"]), "trait", ty=_fresh(g), hint=None, err=None, params=[])
-        it.attrs.append(t)
-        froms = [t]
+    zn, nm = _new_counterpart(it, g, pos, FROM_NAMES, spell)
     named = it.shape == "named"
     name = f"gh{g.mark()}" if named else None
-    f = Field(name, "i32", [Instr(g.pick(["ghost", "ghost_owned", "ghost_ref"]), "ghost", container=None, action=None, spelling=spell)])
+    gname = g.pick(["ghost", "ghost", "ghost_owned", "ghost_ref"])
+    # ghost_owned / ghost_ref only concern the owned / by-reference kinds
+    covers_owned = nm in ("from_owned", "try_from_owned", "from", "try_from", "try_map_owned")
+    covers_ref = nm in ("from_ref", "try_from_ref", "from", "try_from", "map_ref")
+    if (gname == "ghost_owned" and not covers_owned) or (gname == "ghost_ref" and not covers_ref):
+        gname = "ghost"
+    f = Field(name, "i32", [Instr(gname, "ghost", container=zn, action=None, bar=False, spelling=spell)])
     i = _ins(it.fields, pos, f)
-    # the rule applies per from-kind counterpart the ghost is applicable to; at least one message is expected
     mname = name if named else str(i)
-    if f.attrs[0].name == "ghost":
-        exp = [f"Member instruction #[ghost(...)] for member '{mname}' should provide default value for type {_pstr(froms[0].f['ty'])}"]
-    else:
-        exp = [re.compile(re.escape(f"Member instruction #[ghost(...)] for member '{mname}' should provide default value for type "))]
-    return Fault("ghost_no_default", f.attrs[0].name, exp)
+    return Fault("ghost_no_default", f"{gname}/{nm}", [f"Member instruction #[ghost(...)] for member '{mname}' should provide default value for type {zn}"])
 
 
 def f_child_no_parents(it, g, pos, spell):
     if it.kind != "struct" or it.shape == "unit":
         return None
-    intos = [t for t in _trait_instrs(it) if any(k in ("owned_into", "ref_into") for k in kinds_of(t.name))]
-    if not intos:
-        t = Instr(g.pick(["owned_into", "ref_into"]), "trait", ty=_fresh(g), hint=None, err=None, params=[])
-        it.attrs.append(t)
+    zn, nm = _new_counterpart(it, g, pos, INTO_NAMES, spell)
     named = it.shape == "named"
     p = f"zz{g.mark()}"
-    f = Field(f"ch{g.mark()}" if named else None, "i32", [Instr("child", "child", container=None, path=p, spelling=spell)])
+    f = Field(f"ch{g.mark()}" if named else None, "i32", [Instr("child", "child", container=zn, path=p, spelling=spell)])
     _ins(it.fields, pos, f)
-    return Fault("child_no_parents", "-", [re.compile(r"^Missing (#\[child_parents\(\.\.\.\)\] instruction for |'" + p + r": \[Type Path\]' instruction for type )")])
+    # with a default #[child_parents(..)] in scope the missing *entry* is named, otherwise the missing instruction
+    return Fault("child_no_parents", nm, [re.compile(r"^Missing (#\[child_parents\(\.\.\.\)\] instruction for " + zn + r"|'" + p + r": \[Type Path\]' instruction for type " + zn + r")$")])
 
 
 def f_shape_mismatch(it, g, pos, spell):
@@ -293,12 +301,12 @@ def f_shape_mismatch(it, g, pos, spell):
         zn = _fresh(g)
         form = g.pick(["no_instruction", "no_instruction", "action_only_into", "empty_from"])
         if form == "action_only_into":
-            nm = g.pick(["owned_into", "ref_into", "owned_into_existing", "ref_into_existing"])
+            nm = g.pick(["owned_into", "ref_into", "owned_into_existing", "ref_into_existing", "owned_try_into", "ref_try_into", "owned_try_into_existing", "ref_try_into_existing"])
         elif form == "empty_from":
-            nm = g.pick(["from_owned", "from_ref"])
+            nm = g.pick(["from_owned", "from_ref", "try_from_owned", "try_from_ref"])
         else:
-            nm = g.pick(["owned_into", "from_owned", "ref_into", "try_from_ref"])
-        fal = nm.startswith("try")
+            nm = g.pick(["owned_into", "from_owned", "ref_into", "from_ref", "try_from_ref", "try_from_owned", "owned_try_into", "ref_try_into", "ref_into_existing", "owned_try_into_existing"])
+        fal = nm.startswith("try") or "_try_" in nm
         _ins(it.attrs, pos, Instr(nm, "trait", ty=zn, hint="{}", err="Em" if fal else None, params=[], spelling=spell))
         f = Field(None, "i32")
         i = _ins(it.fields, pos, f)
@@ -309,7 +317,7 @@ def f_shape_mismatch(it, g, pos, spell):
                     of.attrs.append(Instr("map", "map", container=zn, member=f"n{g.mark()}", action=None))
         if form == "action_only_into":
             # an expression alone does not name the counterpart's field (o2o-impl/src/tests.rs: incomplete_field_attr_instruction)
-            mi = g.pick(["into", "into", nm])
+            mi = g.pick(["into", "into", nm if "try" not in nm else "into"])
             f.attrs.append(Instr(mi, "map", container=None, member=None, action=f"k{g.mark()}()", braced=True, spelling=spell))
             return Fault("shape_mismatch", "struct/action_only_into", [f"Member trait instruction #[{mi}(...)] for member {i} should specify corresponding field name of the {zn}"])
         if form == "empty_from":
@@ -317,6 +325,8 @@ def f_shape_mismatch(it, g, pos, spell):
             return Fault("shape_mismatch", "struct/empty_from", [f"Member trait instruction #[from(...)] for member {i} should specify corresponding field name of the {zn} or an action"])
         return Fault("shape_mismatch", "struct", [re.compile(r"^Member " + str(i) + r" should have member trait instruction with field name")])
     else:
+        if all(any(p[0] == "return" for p in (t.f.get("params") or [])) for t in _trait_instrs(it)):
+            return None     # a quick return replaces the body: member names are not needed and the rule does not apply
         v = Variant(f"Vm{g.mark()}", "tuple", [Field(None, "i32")], [Instr("type_hint", "type_hint", container=None, hint="{}", spelling=spell)])
         _ins(it.variants, pos, v)
         return Fault("shape_mismatch", "variant", [re.compile(r"^Member 0 of a variant " + v.name + r" should have member trait instruction with field name")])
@@ -325,8 +335,7 @@ def f_shape_mismatch(it, g, pos, spell):
 def f_untyped_parent(it, g, pos, spell):
     if it.kind != "struct" or it.shape != "named":
         return None
-    if not _has_kind(it, lambda k: k.startswith("from")):
-        it.attrs.append(Instr(g.pick(["from_owned", "from_ref"]), "trait", ty=_fresh(g), hint=None, err=None, params=[]))
+    zn, nm = _new_counterpart(it, g, pos, FROM_NAMES, spell)
     k = g.mark()
     form = g.pick(["one_level", "outer_of_two", "inner_of_two"])
     if form == "one_level":
@@ -335,9 +344,9 @@ def f_untyped_parent(it, g, pos, spell):
         args = f"a{k}, [parent([parent(b{k}, c{k})] mid{k}: Mid{k})] q{k}"
     else:
         args = f"a{k}, [parent([parent(b{k}, c{k})] q{k})] out{k}: Out{k}"
-    f = Field(f"pp{k}", f"P{k}", [Instr("parent", "parent", container=None, fields=args, spelling=spell)])
+    f = Field(f"pp{k}", f"P{k}", [Instr("parent", "parent", container=zn, fields=args, spelling=spell)])
     _ins(it.fields, pos, f)
-    return Fault("untyped_parent", form, [f"Field 'q{k}' should have type here, e.g. 'q{k}: SomeStruct'"])
+    return Fault("untyped_parent", f"{form}/{nm}", [f"Field 'q{k}' should have type here, e.g. 'q{k}: SomeStruct'"])
 
 
 def f_repeat_conflict(it, g, pos, spell):
